@@ -97,6 +97,10 @@ class C04(Prop):
             case["eplen"] = rng.randint(1, max(1, len(grid) - 1))
         nsteps = rng.randint(0, len(grid) + 1)
         start = rng.randint(0, 3)
+        gs = sorted(set(grid))
+        if case.get("eplen") and 0 < start < len(gs) and not case.get("markov") and rng.random() < 0.5:
+            # the warm-up horizon lands exactly on an earlier timestep (inclusive bound)
+            case["warmup"] = gs[start] - gs[rng.randint(0, start - 1)]
         ops = [["reset", None, start]] + es.gen_actions(rng, case, nsteps)
         if rng.random() < 0.3:
             ops += [["reset", None, rng.randint(0, 3)]] + es.gen_actions(rng, case, rng.randint(0, len(grid)))
